@@ -35,7 +35,58 @@ BOOK = {
 }
 
 
+def derived_from_generator(ctx: Ctx):
+    """C08.e (all env classes): an attribute that an ancestor's __init__ copies from `self.generator` (a quota, a size, data
+    tensors) belongs to THAT generator.  A subclass that calls super().__init__ and then installs another generator must copy
+    those attributes again, otherwise the env keeps the quota / data of the ancestor's default generator."""
+    import ast as _ast
+    n_sub = 0
+    for cname, path in T.ALL_ENVS.items():
+        env = EnvA(ctx.repo, path, cname)
+        cls = env.cls
+        ini = cls.methods.get("__init__")
+        if ini is None:
+            continue
+        body = ini.node.body
+        sup_i = [i for i, st in enumerate(body) if any(isinstance(n, _ast.Call) and isinstance(n.func, _ast.Attribute) and n.func.attr == "__init__" and isinstance(n.func.value, _ast.Call)
+                                                       and getattr(n.func.value.func, "id", "") == "super" for n in _ast.walk(st))]
+        gen_i = [i for i, st in enumerate(body) if isinstance(st, _ast.Assign) and any(isinstance(t, _ast.Attribute) and t.attr == "generator" and isinstance(t.value, _ast.Name) and t.value.id == "self"
+                                                                                         for t in st.targets)]
+        if not sup_i or not gen_i or gen_i[-1] < sup_i[0]:
+            continue
+        # attributes the ancestors derive from self.generator
+        derived = {}
+        for c in ctx.repo.mro(cls)[1:]:
+            if isinstance(c, str) or c.name == "RL4COEnvBase":
+                continue
+            pin = c.methods.get("__init__")
+            if pin is None:
+                continue
+            for st in pin.node.body:
+                if isinstance(st, _ast.Assign) and len(st.targets) == 1 and isinstance(st.targets[0], _ast.Attribute) and isinstance(st.targets[0].value, _ast.Name) and st.targets[0].value.id == "self":
+                    reads_gen = any(isinstance(n, _ast.Attribute) and isinstance(n.value, _ast.Attribute) and n.value.attr == "generator" and isinstance(n.value.value, _ast.Name)
+                                    and n.value.value.id == "self" for n in _ast.walk(st.value))
+                    if reads_gen and st.targets[0].attr != "generator":
+                        derived.setdefault(st.targets[0].attr, c.name)
+        if not derived:
+            continue
+        n_sub += 1
+        ctx.fn(ini)
+        redone = {st.targets[0].attr for st in body[gen_i[-1] + 1:] if isinstance(st, _ast.Assign) and len(st.targets) == 1 and isinstance(st.targets[0], _ast.Attribute)
+                  and isinstance(st.targets[0].value, _ast.Name) and st.targets[0].value.id == "self"
+                  and any(isinstance(n, _ast.Attribute) and isinstance(n.value, _ast.Attribute) and n.value.attr == "generator" for n in _ast.walk(st.value))}
+        stale = sorted(set(derived) - redone)
+        ctx.ob("C08.e", f"{cname}.__init__:generator-derived-attributes", not stale, ini.loc,
+               f"after replacing self.generator, {cname}.__init__ copies again {sorted(redone)}" if not stale else
+               f"{cname}.__init__ installs its own generator after super().__init__(), but {stale} (copied from self.generator by {sorted(set(derived[a] for a in stale))}.__init__) are not "
+               f"copied again: the env keeps the values of the ancestor's DEFAULT generator (e.g. the quota max_decaps) whatever generator_params say",
+               construct=f"{cname}.__init__:stale:" + ",".join(stale))
+    return n_sub
+
+
 def run(ctx: Ctx):
+    n_derived = derived_from_generator(ctx)
+    ctx.extra["envs_replacing_an_inherited_generator"] = n_derived
     n = 0
     for cname in ("FLPEnv", "MCPEnv", "DPPEnv", "MDPPEnv"):
         env = EnvA(ctx.repo, T.ALL_ENVS[cname], cname)
